@@ -36,7 +36,7 @@ ASSUMPTIONS = ["the replica applies each controller's documented per-step update
 REACH_PROBES = ["recycled_power_flow_executed", "batch_read_path_taken", "only_v_results", "intermediate_dump",
                 "step_failed_then_next_step_checked", "second_run_on_same_net", "line_parameter_controlled",
                 "multi_index_controller", "tap_controller_in_loop", "subset_logged_in_non_table_order",
-                "dc_recycled_power_flow_executed"]
+                "dc_recycled_power_flow_executed", "variable_removed_and_requested_again"]
 
 CTRL_TARGETS = [("load", "p_mw"), ("load", "q_mvar"), ("load", "scaling"), ("sgen", "p_mw"), ("sgen", "q_mvar"),
                 ("sgen", "scaling"), ("storage", "p_mw"), ("gen", "p_mw"), ("gen", "vm_pu"), ("ext_grid", "vm_pu"),
@@ -112,11 +112,13 @@ def generate(rng, idx, tier):
         t, v = rng.choice(LOG_VARS)
         logs.append({"table": t, "variable": v, "subset": rng.choice([None, None, [rng.randrange(100), rng.randrange(100)],
                                                                    [rng.randrange(100) for _ in range(3)]]),
-                     "eval": rng.choice([None, None, None, "max", "sum"])})
+                     "eval": rng.choice([None, None, None, "max", "sum"]),
+                     "index_form": rng.choice(["list", "list", "array", "pd_index", "scalar"]),
+                     "eval_named": rng.random() < 0.7})
     ol.append({"op": "output_writer", "logs": logs, "path": rng.choice([None, "dir", "dir"]),
                "ftype": rng.choice([".p", ".json", ".csv"]),
                "write_time_min": rng.choice([None, None, 0.02]),
-               "log_defaults": rng.random() < 0.3,
+               "log_defaults": rng.random() < 0.3, "relog": rng.random() < 0.15,
                # plain (table, variable) tuples passed to the constructor: the form the batch-read /
                # only_v_results shortcut of run_timeseries accepts
                "ctor_logs": True if batchy else rng.random() < 0.3})
@@ -405,6 +407,7 @@ def _make_ow(net, ow_op, time_steps, tmpdir, ctx=None):
                       output_file_type=ow_op["ftype"], write_time=ow_op["write_time_min"],
                       log_variables=None if ow_op["log_defaults"] else list())
     wanted = []
+    requests = []
     seen = set()
     for lg in ow_op["logs"]:
         t, v = lg["table"], lg["variable"]
@@ -425,8 +428,34 @@ def _make_ow(net, ow_op, time_steps, tmpdir, ctx=None):
                 ctx is not None and ctx.probe("subset_logged_in_non_table_order")
         ef = {"max": np.max, "sum": np.sum}.get(lg["eval"])
         en = f"{lg['eval']}_{t}_{v}" if ef is not None else None
-        ow.log_variable(t, v, index=index, eval_function=ef, eval_name=en)
+        # the documented forms of `index`: one index, list, numpy array, pandas Index
+        form = lg.get("index_form", "list")
+        arg = index
+        if index is not None:
+            if form == "scalar":
+                index = index[:1]
+                arg = index[0]
+            elif form == "array":
+                arg = np.array(index)
+            elif form == "pd_index":
+                arg = pd.Index(index)
+        if ef is not None and not lg.get("eval_named", True):
+            # documented default name of an evaluation column
+            en_arg = None
+            en = "%s.%s.%s.%s" % (t, v, str(index if index is not None else net[el].index.tolist()), ef.__name__)
+        else:
+            en_arg = en
+        ow.log_variable(t, v, index=arg, eval_function=ef, eval_name=en_arg)
+        requests.append((t, v, arg, ef, en_arg))
         wanted.append((t, v, index, lg["eval"], en))
+    if ow_op.get("relog") and requests:
+        # the user drops a variable again and requests it anew (all requests of that table / variable)
+        t0, v0 = requests[0][0], requests[0][1]
+        ow.remove_log_variable(t0, v0)
+        for (t, v, arg, ef, en_arg) in requests:
+            if (t, v) == (t0, v0):
+                ow.log_variable(t, v, index=arg, eval_function=ef, eval_name=en_arg)
+        ctx is not None and ctx.probe("variable_removed_and_requested_again")
     if ow_op["log_defaults"]:
         wanted.append(("res_bus", "vm_pu", None, None, None))
         wanted.append(("res_line", "loading_percent", None, None, None))
